@@ -14,6 +14,7 @@ import (
 	"github.com/vektah/gqlparser/v2"
 	"github.com/vektah/gqlparser/v2/ast"
 	"github.com/vektah/gqlparser/v2/formatter"
+	"github.com/vektah/gqlparser/v2/parser"
 )
 
 var introspectionQueryName string = "IntrospectionQuery"
@@ -312,6 +313,14 @@ func parseInputField(field IntrospectionInputValue) *ast.FieldDefinition {
 		return fd
 	}
 
+	// the specification renders defaultValue as a GraphQL literal in a string
+	if literal, ok := field.DefaultValue.(string); ok {
+		if v := parseLiteral(literal); v != nil && literalFitsType(v, fd.Type) {
+			fd.DefaultValue = v
+			return fd
+		}
+	}
+
 	bRaw, err := json.Marshal(field.DefaultValue)
 	if err != nil {
 		return fd
@@ -382,15 +391,64 @@ func parseInputField(field IntrospectionInputValue) *ast.FieldDefinition {
 	return fd
 }
 
+// parseLiteral parses a GraphQL value literal, returns nil if s is not one
+func parseLiteral(s string) *ast.Value {
+	doc, err := parser.ParseQuery(&ast.Source{Input: "{f(a: " + s + ")}"})
+	if err != nil || len(doc.Operations) != 1 || len(doc.Operations[0].SelectionSet) != 1 {
+		return nil
+	}
+	f, ok := doc.Operations[0].SelectionSet[0].(*ast.Field)
+	if !ok || len(f.Arguments) != 1 {
+		return nil
+	}
+	return f.Arguments[0].Value
+}
+
+// literalFitsType tells a literal sent per specification ("\"abc\"" for a String) from a
+// raw value sent by lenient servers ("abc"), which parses as an enum literal
+func literalFitsType(v *ast.Value, t *ast.Type) bool {
+	if v.Kind == ast.NullValue {
+		return !t.NonNull
+	}
+	if t.Elem != nil {
+		if v.Kind != ast.ListValue {
+			return literalFitsType(v, t.Elem)
+		}
+		for _, ch := range v.Children {
+			if !literalFitsType(ch.Value, t.Elem) {
+				return false
+			}
+		}
+		return true
+	}
+	switch t.NamedType {
+	case "Int":
+		return v.Kind == ast.IntValue
+	case "Float":
+		return v.Kind == ast.IntValue || v.Kind == ast.FloatValue
+	case "String":
+		return v.Kind == ast.StringValue || v.Kind == ast.BlockValue
+	case "Boolean":
+		return v.Kind == ast.BooleanValue
+	case "ID":
+		return v.Kind == ast.StringValue || v.Kind == ast.IntValue
+	}
+	// enums, input objects and custom scalars: whatever parses
+	return v.Kind != ast.Variable
+}
+
 func parseArgList(args []IntrospectionInputValue) ast.ArgumentDefinitionList {
 	result := ast.ArgumentDefinitionList{}
 
 	// we need to add each argument to the field
 	for _, argument := range args {
+		// arguments and input fields are the same __InputValue, default included
+		field := parseInputField(argument)
 		result = append(result, &ast.ArgumentDefinition{
-			Name:        argument.Name,
-			Description: argument.Description,
-			Type:        parseTypeRef(&argument.Type),
+			Name:         field.Name,
+			Description:  field.Description,
+			Type:         field.Type,
+			DefaultValue: field.DefaultValue,
 		})
 	}
 
